@@ -110,6 +110,96 @@ def deep_tree(bare=False):
     return {"version": "", "nodes": nodes, "vectors": uniq}
 
 
+def effective_policy(t, path, root_policy):
+    """a command's policy is the one set in its own initialiser, otherwise the one its parent had when it declared it"""
+    by_path = {n["path"]: n for n in t["nodes"]}
+    parts = path.split(" ")
+    pol = root_policy
+    for i in range(len(parts)):
+        n = by_path[" ".join(parts[:i + 1])]
+        if n.get("policy"):
+            pol = n["policy"]
+    return pol
+
+
+def ints_tree():
+    """the Int option -n is multi-valued (IntsOpt) here: every written value must convert, padded numerals do not"""
+    nodes = [node(["app"], "app", g.Seq(g.Rep(g.Optional(NN)), g.Optional(X)), subs=[1]),
+             node(["c1"], "app c1", g.Seq(g.Rep(g.Optional(NN))))]
+    for n in nodes:
+        n["intmulti"] = True
+    vectors = []
+    for base in ([], ["c1"]):
+        for tail in (["-n=7"], ["-n= 7"], ["-n=7 "], ["-n=7", "-n=\t12"], ["-n=12", "-n=7"], ["-n", "7"], ["-n", " 7"], ["-n=zz"], ["-n=7", "-n=zz"], ["-n= "]):
+            vectors.append(base + tail)
+    return {"version": "", "nodes": nodes, "vectors": vectors}
+
+
+def late_tree():
+    """declaration-free commands; `late` is added to the application after earlier runs"""
+    BARE = {"opts": [], "args": []}
+    nodes = [node(["app"], "app", g.Seq(), subs=[1, 2], prog=BARE, spec=""),
+             node(["early", "ea"], "app early", g.Seq(), prog=BARE, spec=""),
+             node(["late", "lt"], "app late", g.Seq(), subs=[3], prog=BARE, spec=""),
+             node(["inner"], "app late inner", g.Seq(), prog=BARE, spec="")]
+    for n in nodes:
+        n["bare"] = True
+    nodes[2]["late"] = True
+    vectors = [[], ["early"], ["ea"], ["late"], ["lt"], ["late", "inner"], ["lt", "inner"], ["late", "x"], ["early", "late"], ["late", "-h"], ["lt", "inner", "--help"]]
+    return {"version": "", "nodes": nodes, "vectors": vectors}
+
+
+def hidden_tree():
+    """declaration-free commands (re-runnable); a hidden command with a child is declared BEFORE its visible siblings"""
+    BARE = {"opts": [], "args": []}
+    nodes = [node(["app"], "app", g.Seq(), subs=[1, 3, 4], prog=BARE, spec=""),
+             node(["secret", "sc"], "app secret", g.Seq(), subs=[2], prog=BARE, spec=""),
+             node(["deep"], "app secret deep", g.Seq(), prog=BARE, spec=""),
+             node(["open"], "app open", g.Seq(), prog=BARE, spec=""),
+             node(["other", "ot"], "app other", g.Seq(), subs=[5], prog=BARE, spec=""),
+             node(["leaf"], "app other leaf", g.Seq(), prog=BARE, spec="")]
+    for n in nodes:
+        n["bare"] = True
+    nodes[1]["hidden"] = True
+    vectors = []
+    for base in ([], ["secret"], ["sc"], ["secret", "deep"], ["open"], ["other"], ["ot", "leaf"]):
+        for extra in ([], ["-h"], ["--help"], ["x"], ["-g"]):
+            vectors.append(base + extra)
+    return {"version": "", "nodes": nodes, "vectors": vectors}
+
+
+def dash_tree():
+    """sub commands whose names are spelled like options"""
+    nodes = [node(["app"], "app", g.Seq(g.Optional(F), g.Optional(X)), subs=[1, 3]),
+             node(["--list", "-l"], "app --list", g.Seq(g.Optional(F), g.Optional(X)), subs=[2]),
+             node(["--prune"], "app --list --prune", g.Seq(g.Optional(X))),
+             node(["c1"], "app c1", g.Seq(g.Optional(X)))]
+    vectors = []
+    for base in ([], ["--list"], ["-l"], ["--list", "--prune"], ["-l", "--prune"], ["c1"], ["-f", "--list"], ["-f", "-l", "--prune"]):
+        for extra in ([], ["-h"], ["--help"], ["x"], ["-f"], ["x", "-h"], ["-g"], ["--", "-l"]):
+            vectors.append(base + extra)
+    vectors += [["-h", "--list"], ["--help", "-l", "--prune"], ["x", "--list", "-h"]]
+    return {"version": "", "nodes": nodes, "vectors": vectors}
+
+
+def policy_tree():
+    """commands that set their own error policy in their initialiser: the policy of the REJECTING command decides"""
+    nodes = [node(["app"], "app", g.Seq(g.Optional(F)), subs=[1, 3]),
+             node(["c1"], "app c1", g.Seq(g.Optional(F), g.Optional(X)), subs=[2]),
+             node(["d1"], "app c1 d1", g.Seq(X)),
+             node(["c2"], "app c2", g.Seq(g.Optional(X)), subs=[4]),
+             node(["e1"], "app c2 e1", g.Seq(g.Optional(F)))]
+    nodes[1]["policy"] = "continue"
+    nodes[2]["policy"] = "panic"
+    nodes[3]["policy"] = "exit"
+    nodes[4]["policy"] = "continue"
+    vectors = []
+    for base in ([], ["c1"], ["c1", "d1"], ["c2"], ["c2", "e1"], ["-f", "c1"], ["c1", "x", "d1"]):
+        for extra in ([], ["x"], ["-g"], ["x", "y"], ["-f"], ["-f", "x", "zz"], ["-h"]):
+            vectors.append(base + extra)
+    return {"version": "", "nodes": nodes, "vectors": vectors}
+
+
 NAME_POOL = [["c1", "k1"], ["c2"], ["d1"], ["a1", "aa"], ["b1", "bb"], ["e1"], ["e2", "ee"], ["get", "g"], ["one", "o1"], ["deep"], ["two"]]
 
 
@@ -156,7 +246,7 @@ def harness_case(t, policy, argv, prerun=()):
     nodes = []
     for n in t["nodes"]:
         nodes.append({"names": n["names"], "path": n["path"], "spec": n["spec"], "opts": [o for o in n["prog"]["opts"] if o["flag"]], "intopt": "n",
-                      "args": ["X"], "subs": n["subs"], "action": n["action"], "bare": n.get("bare", False)})
+                      "args": ["X"], "subs": n["subs"], "action": n["action"], "bare": n.get("bare", False), "hidden": n.get("hidden", False), "policy": n.get("policy", ""), "late": n.get("late", False), "intmulti": n.get("intmulti", False)})
     return {"nodes": nodes, "version": t["version"], "policy": policy, "argv": argv, "prerun": [list(p) for p in prerun]}
 
 
@@ -197,7 +287,7 @@ def judge(c, r):
     out = []
     if r.get("hang") or r.get("crash"):
         return [("routing", "hang/crash %s" % r)]
-    kind, path, pol = c["kind"], c["path"], c["policy"]
+    kind, path, pol = c["kind"], c["path"], c.get("node_policy") or c["policy"]
     if kind == "run":
         if r["log"] != expected_log(path):
             out.append(("routing", "hooks/actions ran %s, specification says %s" % (r["log"], expected_log(path))))
